@@ -2,7 +2,7 @@ CONSTANTS
   NUser = 2
   Level = 0
   MaxSteps = 2
-  Deviations = {"NoClearOnAddEdge", "NoClearOnAddGenerator"}
+  Deviations = {"NoProviderClearOnAddEdge"}
   Prov = "G"
   FixedRoots = TRUE
 SPECIFICATION Spec
